@@ -170,7 +170,7 @@ func runC15(c *rt.Ctx) {
 	c.Exhaustive(fmt.Sprintf("all (from, to, probe) triples over the %d-date window x 4 nil combinations", len(window)))
 
 	lo, hi := ref.Ordinal(0, 1, 1), ref.Ordinal(9999, 12, 31)
-	nRand := c.Pick(1000000, 10000000)
+	nRand := c.Pick(1000000, 60000000)
 	c.Parallel("random", 0, func(w *rt.W) {
 		span := uint64(hi - lo + 1)
 		clamp := func(o int64) int64 {
